@@ -126,6 +126,21 @@ Proof.
   apply latest_at_or_below; assumption.
 Qed.
 
+(* after Commit: writing the batch leaves every read unchanged, but Commit does not (and, because of dry-run commits,
+   must not) reset the cache, so using the same Database further after the batch was WRITTEN is outside the refinement
+   (known finding c12:ops2:spec:after-commit): witness of a staged delete lost after a written Commit *)
+Theorem C12_post_commit_reads_unchanged : forall db c k, sorted db -> Inv db c ->
+  overlay (apply_writes (commit_writes c) db) c k = overlay db c k.
+Proof. exact post_commit_overlay. Qed.
+
+Theorem C12_continued_use_after_commit_refuted :
+  exists db root ops1 ops2,
+    let d1 := fst (run db (init_state root) ops1) in
+    let m1 := apply_writes (fst (db_Commit d1)) db in
+    let s1 := fst (spec_run (spec_init db root) ops1) in
+    sorted db /\ m1 = s_map s1 /\ snd (run m1 d1 ops2) <> snd (spec_run s1 ops2).
+Proof. exact continued_use_after_commit_refuted. Qed.
+
 (* pkg/db/batchdb (no overlay): for every operation sequence the reads return the DATABASE value, whatever was
    put in the batch before (batchdb does not stage), and writing the batch gives exactly the map the overlay
    specification reaches with the same set/del operations *)
